@@ -1,5 +1,6 @@
 """C20 — cloned archive handles are independent and usable in parallel."""
 import itertools
+import struct
 import genzip
 from genzip import Entry
 from zvlib import Check, run_lines, _parse_obs
@@ -85,12 +86,32 @@ class C20(Check):
             for nt in (8, 16):
                 cases.append(("clonethreads %s %d %s %d %d %d" % (hexs(data), 1 if pw else 0, hexs(pw or b""), nt, r.randrange(1 << 30), rounds),
                               dict(k="threads", impl_only=True)))
+        # interleavings at I/O-call granularity: handle A is stopped in front of each of its read/seek calls while a second
+        # clone opens and reads the same entry (entries with and without local extra fields, all methods, encrypted)
+        X = genzip.build([Entry(b"x0", txt[:80], extra_local=struct.pack("<HH", 0xcafe, 6) + b"abcdef"),
+                          Entry(b"x1", txt, method=8, z64_local=True), Entry(b"x2", txt[:33], extra_local=struct.pack("<HH", 0xbeef, 0)),
+                          Entry(b"x3", b"", extra_local=struct.pack("<HH", 0xcafe, 1) + b"z"), Entry(b"x4", txt[5:300], method=12)])[0]
+        import wprog
+        from wprog import Opts
+        wl = wprog.line([("file", b"w0", Opts(large=True)), ("write", b"large flag placeholder"), ("aligned", b"w1", Opts(), 64), ("write", b"aligned data"),
+                         ("extra", b"w2", Opts(method=8)), ("write", struct.pack("<HH", 0xcafe, 3) + b"xyz"), ("endextra",), ("write", b"after extra " * 9), ("finish",)])
+        W = wprog.final_bytes(run_lines(exe, [wl], shards=1)[0])[1]
+        for data, pw in ((X, None), (W, None), (A, None), (B, b"pw")):
+            if data:
+                cases.append(("clonegate %s %d %s" % (hexs(data), 1 if pw else 0, hexs(pw or b"")), dict(k="gate", impl_only=True)))
         return cases
 
     def oracle(self, line, meta, out):
         if out is None or "PANIC" in out or out.startswith("ABORT") or out == "TIMEOUT":
             return "panic or process death: %s" % (out or "")[:200]
         p = _parse_obs(out)
+        if meta["k"] == "gate":
+            if not isinstance(p[0], list) or len(p[0]) != 3:
+                return "unexpected output " + out[:120]
+            scen, mism, detail = p[0]
+            if int(mism) != 0:
+                return "%s of %s I/O-level interleavings of two clones on one entry differ from a handle used alone: %s" % (mism, scen, detail)
+            return None
         if meta["k"] == "threads":
             n, runs, mism, detail = p[0]
             if int(mism) != 0:
